@@ -301,3 +301,39 @@ def peel_bool(F, term, depth=0):
         if r is not None:
             return peel_bool(F, r, depth + 1)
     return term
+
+
+def loop_all_any(body, method):
+    """Recognise `for x in xs { if !x.METHOD(..) { return false } } true` (-> 'all') and the dual (-> 'any'), i.e. the
+    hand-written loop forms of `xs.iter().all(|x| x.METHOD(..))` / `.any(..)`. Returns 'all', 'any' or None."""
+    zero_after = set()      # truth value of the METHOD test right before `return false`
+    one_after = set()
+    ends = {0: set(), 1: set()}
+    for p in PathEval(body, max_visits=2).run():
+        if p.end != "return" or p.ret is None or p.ret[0] != "const" or p.ret[2] not in (0, 1):
+            if p.end == "return":
+                return None
+            continue
+        last = None
+        for c in p.conds:
+            t = c[0]
+            if t[0] == "call" and t[1].rsplit("::", 1)[-1] == method:
+                last = ("test", c[1] != 0)
+            elif t[0] == "discr" and t[1][0] == "call" and t[1][1].rsplit("::", 1)[-1] == "next":
+                last = ("next", c[1])
+        ends[p.ret[2]].add(last)
+    if ends[0] and ends[1] and all(x == ("test", False) for x in ends[0]) and all(x and x[0] == "next" and x[1] == 0 for x in ends[1]):
+        return "all"
+    if ends[0] and ends[1] and all(x == ("test", True) for x in ends[1]) and all(x and x[0] == "next" and x[1] == 0 for x in ends[0]):
+        return "any"
+    return None
+
+
+def norm_cmp(term):
+    """Normalise a PartialOrd comparison term to its ge/gt form: le(a, b) -> ge(b, a), lt(a, b) -> gt(b, a)."""
+    if term and term[0] == "call" and len(term[2]) == 2:
+        name = term[1].rsplit("::", 1)[-1]
+        if name in ("le", "lt"):
+            new = term[1][:-2] + ("ge" if name == "le" else "gt")
+            return ("call", new, (term[2][1], term[2][0])) + tuple(term[3:])
+    return term
